@@ -121,7 +121,7 @@ type outcome struct {
 	events   []event.VerifEvent
 	deadlock bool
 	dump     string
-	panicked string
+	panics   []panicRec
 }
 
 // stallTicks: number of 2 ms ticker ticks the watchdog must observe without progress (in addition to the
@@ -131,6 +131,11 @@ const stallTicks = 1000
 
 // blocked reports whether `done` stays open for stallTicks observed ticks and at least d of wall time.
 func blocked(done <-chan string, d time.Duration) (string, bool) {
+	return blockedOr(done, d, nil)
+}
+
+// blockedOr additionally gives up at once when abort() reports true (a recorded panic: the feed may be wedged).
+func blockedOr(done <-chan string, d time.Duration, abort func() bool) (string, bool) {
 	start, ticks := time.Now(), 0
 	tick := time.NewTicker(2 * time.Millisecond)
 	defer tick.Stop()
@@ -139,6 +144,9 @@ func blocked(done <-chan string, d time.Duration) (string, bool) {
 		case v := <-done:
 			return v, false
 		case <-tick.C:
+			if abort != nil && abort() {
+				return "", true
+			}
 			if ticks++; ticks >= stallTicks && time.Since(start) > d {
 				return "", true
 			}
@@ -177,17 +185,9 @@ func runSchedule(s schedule, watchdog time.Duration) (out outcome) {
 	var scope event.SubscriptionScope
 	quit := make(chan struct{})
 	var wgWork, wgRecv sync.WaitGroup
-	var pmu sync.Mutex
-	guard := func(f func()) {
-		defer func() {
-			if r := recover(); r != nil {
-				pmu.Lock()
-				out.panicked = fmt.Sprint(r)
-				pmu.Unlock()
-			}
-		}()
-		f()
-	}
+	pl := &panicLog{}
+	guard := pl.guard
+	defer func() { out.panics = pl.list() }()
 	chans := map[int]chan int{}
 	subs := map[int]event.Subscription{}
 	var smu sync.Mutex
@@ -202,9 +202,12 @@ func runSchedule(s schedule, watchdog time.Duration) (out outcome) {
 	}
 	subscribe := func(cs chanSpec) event.Subscription {
 		tr.Record("sub_call", cs.ID, 0)
-		sub := feed.Subscribe(chans[cs.ID])
+		var sub event.Subscription
+		pl.do("Subscribe", func() { sub = feed.Subscribe(chans[cs.ID]) })
 		if cs.Unsub == "scope" {
-			if t := scope.Track(sub); t != nil {
+			var t event.Subscription
+			pl.do("scope.Track", func() { t = scope.Track(sub) })
+			if t != nil {
 				sub = t
 			} else {
 				tr.Record("track_nil", cs.ID, 0) // the scope was already closed: stays subscribed
@@ -217,7 +220,7 @@ func runSchedule(s schedule, watchdog time.Duration) (out outcome) {
 				defer wgWork.Done()
 				pause(rng, &rmu, cs.Delay*2)
 				tr.Record("sunsub_call", cs.ID, 0)
-				wrapped.Unsubscribe() // scopeSub.Unsubscribe: unsubscribes and leaves the scope; races with scope.Close
+				pl.do("scopeSub.Unsubscribe", func() { wrapped.Unsubscribe() }) // unsubscribes and leaves the scope; races with scope.Close
 				tr.Record("sunsub_ret", cs.ID, 0)
 			})
 		}
@@ -237,7 +240,7 @@ func runSchedule(s schedule, watchdog time.Duration) (out outcome) {
 				// the subscriber stops receiving and unsubscribes: a Send may be blocked on this very channel
 				pause(rng, &rmu, cs.Delay)
 				tr.Record("unsub_call", cs.ID, 0)
-				sub.Unsubscribe()
+				pl.do("Unsubscribe", func() { sub.Unsubscribe() })
 				tr.Record("unsub_ret", cs.ID, 0)
 				unsubbed = true
 			}
@@ -272,15 +275,16 @@ func runSchedule(s schedule, watchdog time.Duration) (out outcome) {
 				defer wgWork.Done()
 				pause(rng, &rmu, cs.Delay*3)
 				tr.Record("unsub_call", cs.ID, 0)
-				sub.Unsubscribe()
+				pl.do("Unsubscribe", func() { sub.Unsubscribe() })
 				tr.Record("unsub_ret", cs.ID, 0)
-				sub.Unsubscribe() // idempotent
+				pl.do("Unsubscribe", func() { sub.Unsubscribe() }) // idempotent
 			})
 		}
 	}
 	for _, cs := range s.Chans {
 		if !cs.Late {
-			start(cs)
+			cs := cs
+			guard(func() { start(cs) })
 		}
 	}
 	for _, cs := range s.Chans {
@@ -309,10 +313,12 @@ func runSchedule(s schedule, watchdog time.Duration) (out outcome) {
 			}
 			smu.Unlock()
 			tr.Record("scope_close_call", 0, 0)
-			scope.Close()
+			pl.do("scope.Close", func() { scope.Close() })
 			tr.Record("scope_close_ret", 0, 0)
 			probe := event.NewSubscription(func(q <-chan struct{}) error { <-q; return nil })
-			if scope.Track(probe) != nil {
+			var t event.Subscription
+			pl.do("scope.Track", func() { t = scope.Track(probe) })
+			if t != nil {
 				tr.Record("scope_track_after_close", 0, 0)
 			}
 			probe.Unsubscribe()
@@ -339,7 +345,8 @@ func runSchedule(s schedule, watchdog time.Duration) (out outcome) {
 					}
 					continue
 				}
-				n := feed.Send(id)
+				n := 0
+				pl.do("Send", func() { n = feed.Send(id) })
 				tr.Record("send_ret", id, n)
 			}
 		})
@@ -358,6 +365,10 @@ func runSchedule(s schedule, watchdog time.Duration) (out outcome) {
 			case <-tick.C:
 				// no verdict by wall-clock alone: the watchdog must itself have been scheduled `stallTicks` times
 				// (ticks are dropped when the process is starved) without seeing a new trace record
+				if len(pl.list()) > 0 { // a call into aqua/event panicked: the feed may be wedged, abandon the schedule now
+					out.events = tr.Snapshot()
+					return false
+				}
 				n := len(tr.Snapshot())
 				if n != lastN {
 					lastN, last, ticks = n, time.Now(), 0
@@ -375,7 +386,7 @@ func runSchedule(s schedule, watchdog time.Duration) (out outcome) {
 		return out
 	}
 	if len(scoped) > 0 {
-		tr.Record("scope_count", 0, scope.Count())
+		guard(func() { pl.do("scope.Count", func() { tr.Record("scope_count", 0, scope.Count()) }) })
 	}
 	close(quit)
 	if !wait(&wgRecv) {
@@ -688,11 +699,17 @@ func evText(evs []event.VerifEvent) []string {
 func typeMismatch(c *vh.Ctx, m *vh.Model) {
 	feed := new(event.Feed)
 	ch := make(chan int, 1)
-	feed.Subscribe(ch)
+	if p, v := vh.CatchPanic(func() { feed.Subscribe(ch) }); p {
+		c.Violate("feed-panic/Subscribe", fmt.Sprint("Subscribe panicked: ", v), map[string]interface{}{"steps": []string{"feed.Subscribe(chan int)"}})
+		return
+	}
 	panicked, _ := vh.CatchPanic(func() { feed.Send("not an int") })
 	res := make(chan string, 1)
 	go func() {
-		feed.Subscribe(make(chan int, 1))
+		if p, _ := vh.CatchPanic(func() { feed.Subscribe(make(chan int, 1)) }); p {
+			res <- "panic"
+			return
+		}
 		res <- "true"
 	}()
 	observed := "true"
@@ -840,15 +857,16 @@ func main() {
 			c.Count("skipped-after-deadlocks")
 			continue
 		}
+		if len(r.out.panics) > 0 { // reported before (and instead of) the deadlock a wedged feed then causes
+			c.Eval(r.s.class(), "")
+			p0 := r.out.panics[0]
+			c.Violate("feed-panic/"+p0.Op, "aqua/event panicked in "+p0.Op+": "+p0.Val, map[string]interface{}{"schedule": r.s, "panics": r.out.panics, "trace": evText(r.out.events)})
+			continue
+		}
 		if r.out.deadlock {
 			c.Eval(r.s.class(), "")
 			c.Violate("deadlock", "no progress for "+watchdog.String()+" with every subscriber receiving or unsubscribing",
 				map[string]interface{}{"schedule": r.s, "trace": evText(r.out.events), "goroutines": r.out.dump})
-			continue
-		}
-		if r.out.panicked != "" {
-			c.Eval(r.s.class(), "")
-			c.Violate("panic", "Feed panicked: "+r.out.panicked, map[string]interface{}{"schedule": r.s, "trace": evText(r.out.events)})
 			continue
 		}
 		ls, err := translate(r.s, r.out.events)
@@ -889,6 +907,8 @@ func main() {
 	}
 	if c.Replay == "" {
 		dupPart(c, m)
+		stormPart(c, m)
+		scopePart(c, m)
 	}
 	raceRun(c)
 	c.Assume("channels and mutexes behave as the Go language specification says; the scheduler and the memory model are not modelled (the race detector is not part of this run)")
